@@ -47,6 +47,31 @@ def op_of(repo, cls):
     return {"operator.lt": operator.lt, "operator.gt": operator.gt, "operator.le": operator.le, "operator.ge": operator.ge}.get(A.norm(r))
 
 
+def tripped_latch(ctx, repo, rule="C30.D2-tripped-follows-decision"):
+    """self._tripped is a latch: set True only where _should_suspend(value) held, cleared only where _should_resume(value)
+    held (or suspend did not) - a value between the two thresholds changes nothing."""
+    call = repo.func(SU, "SuspenderBase.__call__")
+    g = q.cfg(call, q.quiet_policy(repo))
+    for s in A.walk_stmts(call.node.body):
+        if isinstance(s, (ast.Assign, ast.AugAssign, ast.AnnAssign)) and any(A.chain(t) == "self._tripped" for t in A.targets_of(s)):
+            val = s.value.value if isinstance(s, ast.Assign) and isinstance(s.value, ast.Constant) else None
+            if val is True:
+                w = q.guard_true_dominates(g, s, lambda t: A.norm(t) == "self._should_suspend(value)", "T")
+            elif val is False:
+                w = q.guard_true_dominates(g, s, lambda t: A.norm(t) == "self._should_resume(value)", "T")
+            else:
+                w = [f"`{A.short(s, 60)}` recomputes the flag from the current value"]
+            ctx.ob(rule, cname(call, s), w is None and val in (True, False),
+                   "" if w is None else "the tripped flag is updated outside the branch that decided it: a value in the dead band between the suspend and "
+                   "resume conditions clears (or sets) it although nothing was released", nontrivial=True, witness=w, where=where(call, s))
+    consts = {s.value.value for s in A.walk_stmts(call.node.body) if isinstance(s, ast.Assign) and any(A.chain(t) == "self._tripped" for t in A.targets_of(s))
+              and isinstance(s.value, ast.Constant)}
+    ok = consts == {True, False}
+    ctx.ob(rule, cname(call, None, "the flag is set in the suspend branch and cleared in the resume branch"), ok,
+           "" if ok else f"constant stores found: {sorted(map(str, consts))}: the latch is not set / never cleared", where=where(call, call.node))
+    return call
+
+
 def run(ctx):
     repo = ctx.repo
     ctx.explanation = (
@@ -113,20 +138,7 @@ def run(ctx):
     fs, fr = method(repo, "SuspendWhenChanged", "_should_suspend"), method(repo, "SuspendWhenChanged", "_should_resume")
     ok = A.norm(ret_expr(fs)) == "value != self.expected_value" and A.norm(ret_expr(fr)) == "self.allow_resume and value == self.expected_value"
     ctx.ob("C30.D1-conditions-match-documentation", f"{SU}:SuspendWhenChanged truth table", ok, "" if ok else "changed-value conditions changed", where=where(fs, fs.node))
-    # D2 state update shape
-    call = repo.func(SU, "SuspenderBase.__call__")
-    g = q.cfg(call, q.quiet_policy(repo))
-    for s in A.walk_stmts(call.node.body):
-        if isinstance(s, ast.Assign) and A.chain(s.targets[0]) == "self._tripped":
-            val = s.value.value if isinstance(s.value, ast.Constant) else None
-            if val is True:
-                w = q.guard_true_dominates(g, s, lambda t: A.norm(t) == "self._should_suspend(value)", "T")
-            else:
-                w = q.guard_true_dominates(g, s, lambda t: A.norm(t) == "self._should_resume(value)", "T")
-                w = w or q.guard_true_dominates(g, s, lambda t: A.norm(t) == "self._should_suspend(value)", "F")
-            ctx.ob("C30.D2-tripped-follows-decision", cname(call, s), w is None and val in (True, False),
-                   "" if w is None else "the tripped flag is updated outside the branch that decided it", nontrivial=True, witness=w, where=where(call, s))
-    ctx.expect("C30.D2-tripped-follows-decision", 2)
+    call = tripped_latch(ctx, repo)
     tops = [s for s in A.walk_stmts(call.node.body) if isinstance(s, ast.If) and A.norm(s.test) == "self._should_suspend(value)"]
     ok = bool(tops) and tops[0].orelse and isinstance(tops[0].orelse[0], ast.If) and A.norm(tops[0].orelse[0].test) == "self._should_resume(value)"
     ctx.ob("C30.D2-tripped-follows-decision", cname(call, None, "if suspend ... elif resume ..."), ok, "" if ok else "decision structure changed", where=where(call, call.node))
